@@ -21,13 +21,25 @@ ITEM_TIMEOUT = {"quick": 400, "thorough": 2400}
 
 
 def bounds(tier):
-    return "every composition (n+, n-, N) with N <= %d (value, composition-only); returned permutant with symbolic spelling for N <= %d" % (NMAX[tier], NPERM[tier])
+    return ("every composition (n+, n-, N) with N <= %d (value, composition-only), plus compositions with 17, 18, 19 neutrals and small charge counts "
+            "(both sides of the regime switch); returned permutant with symbolic spelling for N <= %d" % (NMAX[tier], NPERM[tier]))
 
 
 def items(tier, seed):
     out = comp_items(1, NMAX[tier])
     for it in out:
         it["perm"] = it["N"] <= NPERM[tier]
+    # both sides of the 17/18-neutral switch of the documented search (lengths beyond NMAX; value and composition-only claims)
+    seen = {it["name"] for it in out}
+    for n0 in (17, 18, 19):
+        for a in range(0, 3 if tier == "quick" else 5):
+            for b in range(0, 9 if tier == "quick" else 11):
+                for (x, y) in ((a, b), (b, a)):
+                    N = n0 + x + y
+                    nm = "N%d_p%d_n%d" % (N, x, y)
+                    if nm not in seen:
+                        seen.add(nm)
+                        out.append(dict(name=nm, N=N, npos=x, nneg=y, perm=False))
     return out
 
 
@@ -40,9 +52,11 @@ def run_item(item):
     I.solver.add(composition(vs, a, b))
     want, acceptable = S.deltamax_family(a, b, N)
     rng = random.Random(N * 1009 + a * 31 + b)
+    prelude = std_prelude(N, a, b)
+    run_prelude(prelude)
 
     def cex(m):
-        return dict(seq=seq_of_model(m, vs))
+        return dict(seq=seq_of_model(m, vs), prelude=prelude)
 
     def value_ok(ob, v, m, what):
         if is_sym(v):
@@ -87,7 +101,7 @@ def run_item(item):
                 return
 
             def cexp(mm):
-                return dict(seq=seq_of_model(mm, vs), perm=True)
+                return dict(seq=seq_of_model(mm, vs), perm=True, prelude=prelude)
             # same multiset of residues
             for aa in AA:
                 cin = count(v_ == IDX[aa] for v_ in vs)
@@ -106,6 +120,7 @@ def run_item(item):
 
 def replay(cex):
     from localcider.sequenceParameters import SequenceParameters
+    run_prelude(cex.get("prelude"))
     seq = cex["seq"]
     N = len(seq)
     a = sum(1 for c in seq if c in T.POS)
